@@ -8,6 +8,7 @@ package main
 
 import (
 	"fmt"
+	"strings"
 
 	"github.com/goghcrow/yae/parser/oper"
 	"github.com/goghcrow/yae/trans"
@@ -260,13 +261,19 @@ func runC11(r *Run) {
 		h := historyFor(c.withFns)
 		req := L(A("bytecode"), h.Sx(), tenvSx(vars), oraclesSx(c.src, stdValues()), Runes(c.src))
 		if cls != "ok" {
-			r.Case(req, A(cls))
+			if len(c.src) < 20000 {
+				r.Case(req, A(cls))
+			}
 			r.Count("prog:" + cls)
 			return
 		}
-		r.Case(req, L(A("ok"), bytesSx(code), poolSx(pool)))
-		// the extracted verifier on the implementation's bytes
-		r.Case(L(A("verify"), bytesSx(code), poolSx(pool)), Bool(true))
+		if len(code) < 20000 {
+			r.Case(req, L(A("ok"), bytesSx(code), poolSx(pool)))
+			// the extracted verifier on the implementation's bytes
+			r.Case(L(A("verify"), bytesSx(code), poolSx(pool)), Bool(true))
+		} else {
+			r.Count("prog:too-large-for-the-extracted-model(direct verifier only)")
+		}
 		r.Count("prog:compiled")
 		r.Nontrivial(c.src)
 		if why := verifyCode(code, pool, names, tbl); why != "" {
@@ -304,6 +311,21 @@ func runC11(r *Run) {
 		judge(evalCase{"[" + xs + "]", false})
 		// a conditional spanning more than 255 bytes
 		judge(evalCase{"if(b, len([" + xs + "]), 0)", false})
+	}
+	// code that straddles the 64K boundary of 16-bit jump operands: refused, or emitted with exact targets
+	{
+		big := func(n int) string {
+			xs := make([]string, n)
+			for i := range xs {
+				xs[i] = fmt.Sprint(i % 9)
+			}
+			return "[" + strings.Join(xs, ", ") + "]"
+		}
+		L := big(21900)
+		for _, src := range []string{"if(b, 0, len(" + L + "))", "b || len(" + L + ") > 0", "if(b, len(" + L + "), 0)", "f && len(" + L + ") > 0", "if(b, 1, 2) + len(" + L + ")"} {
+			judge(evalCase{src, false})
+			r.Count("64K-boundary programs")
+		}
 	}
 	// constant-pool position sweep: every tail operator after 0..N constants
 	{
